@@ -1222,6 +1222,7 @@ func EvalProgram(progSrc string, files []InputFile, rootSelectors []string, stdo
 
 			for _, rootCell := range rootCells {
 				var rootVal = rootCell.Value
+				verifEmit("Round", ev.stackTop.depth, 0, "")
 
 				// run the begin file rules
 				for _, rule := range ev.beginFileRules {
